@@ -38,6 +38,10 @@ CLAIMED = {
             _LV + "C10: chain semantics, pointwise combinators, string predicates (identifier vs regex), documented identities.", _NOTE, "DESIGN.md 5/C10"),
     "C11": ("differential warmed-retort vs fresh-retort closures on a symbolic datum (CrossHair + z3) + cache-key soundness of the real cached_call",
             _LV + "C11: histories over a pool of mutually confusable types are enumerated natively (stated as enumeration), the datum is symbolic.", _NOTE, "DESIGN.md 5/C11"),
+    "C13": ("CrossHair symbolic execution of generated converter functions vs the field-wise construction written from the linking rules; source values symbolic; recipes and call histories enumerated natively",
+            _LV + "C13: converters for rename/overlap/constant/function links, parameter kinds, skipped optionals, nested/Optional/iterable/dict coercion, from_param, shadowing, per-call recipe vs cache.", _NOTE, "DESIGN.md 5/C13"),
+    "C14": ("CrossHair symbolic execution of every accepted field-type pair's converter on a symbolic conforming source value (semantic soundness); acceptance relation over the pool by labelled native enumeration",
+            _LV + "C14: a conforming source value always yields a value conforming to the destination type; accepted pairs lie inside the documented relation; unlinked fields refused.", _NOTE, "DESIGN.md 5/C14"),
     "C15": ("differential loaders of equivalent spellings on a symbolic datum (CrossHair + z3); structural congruence by labelled native enumeration",
             _LV + "C15: equal/hash-equal/idempotent normal forms inside groups of equivalent hints, unequal across groups (enumeration, labelled), behavioural equivalence on symbolic data.", _NOTE, "DESIGN.md 5/C15"),
     "C18": ("CrossHair symbolic execution of the real enum/flag loaders and dumpers: flag value and candidate representation symbolic, classes x providers x option cube enumerated natively",
